@@ -454,8 +454,8 @@ def run(ctx):
     dist = {"spelling_tags": {}, "model_outcomes": {}}
 
     # ---------------- part A: spellings through the four entry points
-    n_sp = ctx.scale(4200, 120000)
-    n_hard = ctx.scale(700, 30000)
+    n_sp = ctx.scale(2900, 120000)
+    n_hard = ctx.scale(500, 30000)
     cases, seen = [], set()
 
     def add(tag, s):
@@ -498,7 +498,7 @@ def run(ctx):
             obs.append(o)
 
     exprs = [pack_case(s, o) for (_, s), o in zip(cases, obs)]
-    bad, errs = core.coq_eval_bools(ctx.prop, IMPORTS, exprs, chunk=500, tag="spellcases")
+    bad, errs = core.coq_eval_bools(ctx.prop, IMPORTS, exprs, chunk=600, tag="spellcases")
     notes.append("spellings coq %.1fs" % (time.time() - t0)); t0 = time.time()
     for k, t in errs:
         tie_breaks.append({"kind": "coq-eval", "what": "model evaluation shard failed (spellings)", "detail": t})
@@ -648,12 +648,12 @@ def run(ctx):
     dist["roundtrip"] = {"doubles": len(dbls), "integers": len(ints), "float_texts_without_dot": nodot, "failures_by_key": rt_fail}
 
     # the model reads the printed texts back: a sample of the float texts, all integer texts
-    n_txt = ctx.scale(2000, 60000)
+    n_txt = ctx.scale(1400, 60000)
     it = text_checks[len(text_checks) - n_int_texts[0]:]      # integers are processed last
     ft = sorted(set(text_checks[:len(text_checks) - n_int_texts[0]]))
     rng.shuffle(ft)
     sample = ft[:n_txt] + sorted(set(it))
-    tbad, terrs = core.coq_eval_bools(ctx.prop, IMPORTS, sample, chunk=500, tag="textcases")
+    tbad, terrs = core.coq_eval_bools(ctx.prop, IMPORTS, sample, chunk=600, tag="textcases")
     notes.append("texts coq %.1fs" % (time.time() - t0))
     for k, t in terrs:
         tie_breaks.append({"kind": "coq-eval", "what": "model evaluation shard failed (printed texts)", "detail": t})
